@@ -6,6 +6,7 @@ mod counted;
 mod dump;
 mod dynops;
 mod expr;
+mod floatexpr;
 mod floatgrid;
 mod fuzz;
 mod fuzz_calc;
@@ -48,6 +49,7 @@ fn main() {
         "tables" => fuzz::main_tables(rest),
         "longchain" => longchain::main(rest),
         "stmts" => stmts::main(rest),
+        "floatexpr" => floatexpr::main(rest),
         _ => {
             eprintln!("usage: recorder <expr> [options]");
             2
